@@ -460,18 +460,22 @@ fn derive_func_op_shape(def: &FuncOpDef, symbol_table: &mut BTreeMap<Rc<str>, Sh
         FuncOpDef::Map(MapFilterOpDef { func, target, pos }) => {
             let target_shape = target.derive_shape(symbol_table);
             let func_shape = func.derive_shape(symbol_table);
-            // target must be a list
+            // target must be a list, a tuple or a string
             match &target_shape {
-                Shape::List(_) | Shape::Hole(_) => {}
-                Shape::Narrowed(NarrowedShape {
-                    types: NarrowingShape::Any,
-                    ..
-                }) => {}
+                Shape::List(_) | Shape::Hole(_) | Shape::Narrowed(_) => {}
+                Shape::Tuple(_) | Shape::Str(_) => {
+                    // The result is again a tuple / a string whose content the
+                    // function decides: nothing is known about it statically.
+                    return Shape::Narrowed(NarrowedShape {
+                        pos: pos.clone(),
+                        types: NarrowingShape::Any,
+                    });
+                }
                 _ => {
                     return Shape::TypeErr(
                         pos.clone(),
                         format!(
-                            "map target must be a list, got {}",
+                            "map target must be a list, tuple or string, got {}",
                             target_shape.type_name()
                         ),
                     );
@@ -506,10 +510,17 @@ fn derive_func_op_shape(def: &FuncOpDef, symbol_table: &mut BTreeMap<Rc<str>, Sh
                     pos: pos.clone(),
                     types: NarrowingShape::Any,
                 }),
+                // A string filters to a string; of a tuple, or of a value that
+                // is one of several candidates, some part remains.
+                Shape::Str(_) => target_shape,
+                Shape::Tuple(_) | Shape::Narrowed(_) => Shape::Narrowed(NarrowedShape {
+                    pos: pos.clone(),
+                    types: NarrowingShape::Any,
+                }),
                 _ => Shape::TypeErr(
                     pos.clone(),
                     format!(
-                        "filter target must be a list, got {}",
+                        "filter target must be a list, tuple or string, got {}",
                         target_shape.type_name()
                     ),
                 ),
@@ -524,18 +535,15 @@ fn derive_func_op_shape(def: &FuncOpDef, symbol_table: &mut BTreeMap<Rc<str>, Sh
             let target_shape = target.derive_shape(symbol_table);
             let acc_shape = acc.derive_shape(symbol_table);
             let func_shape = func.derive_shape(symbol_table);
-            // target must be a list
+            // target must be a list, a tuple or a string
             match &target_shape {
-                Shape::List(_) | Shape::Hole(_) => {}
-                Shape::Narrowed(NarrowedShape {
-                    types: NarrowingShape::Any,
-                    ..
-                }) => {}
+                Shape::List(_) | Shape::Hole(_) | Shape::Narrowed(_) => {}
+                Shape::Tuple(_) | Shape::Str(_) => {}
                 _ => {
                     return Shape::TypeErr(
                         pos.clone(),
                         format!(
-                            "reduce target must be a list, got {}",
+                            "reduce target must be a list, tuple or string, got {}",
                             target_shape.type_name()
                         ),
                     );
